@@ -342,3 +342,96 @@ func init() {
 	register("C06", "R5", "K4", "results hash keeps only deterministic fields; the next state sets every field from (state, header, responses)", 30, ruleDeterministicResults)
 	register("C06", "R6", "K11", "size budget for proposals", 6, ruleSizeBudget)
 }
+
+// ------------------------------------------------------------------ C06.R10
+// state.Rollback rebuilds the state of height n-1 from the state of height n, the two block metas and the
+// stores. Each field has exactly one right source; in particular the results hash and app hash of a state
+// are the ones the *next* block's header carries (they are agreed on one block later), so they come from
+// the dropped block n, while height, id and time come from block n-1. A state rebuilt from the wrong source
+// rejects the very block it has to re-apply (or accepts a different one).
+func init() {
+	register("C06", "R10", "K5", "rollback rebuilds every field of the previous state from its one right source", 10, func(c *Ctx) {
+		w := c.W
+		f := c.fn("state", "Rollback")
+		if f == nil {
+			return
+		}
+		fk := funcKey(f)
+		inv := `ss\.Load\(\)#0`
+		prev := `bs\.LoadBlockMeta\(\(` + inv + `\.LastBlockHeight - 1\)\)`
+		drop := `bs\.LoadBlockMeta\(` + inv + `\.LastBlockHeight\)`
+		table := []struct{ field, re, what string }{
+			{"ChainID", inv + `\.ChainID`, "the dropped state (immutable)"},
+			{"InitialHeight", inv + `\.InitialHeight`, "the dropped state (immutable)"},
+			{"LastBlockHeight", prev + `\.Header\.Height`, "block n-1"},
+			{"LastBlockID", prev + `\.BlockID`, "block n-1"},
+			{"LastBlockTime", prev + `\.Header\.Time`, "block n-1"},
+			{"NextValidators", inv + `\.Validators`, "the dropped state's Validators"},
+			{"Validators", inv + `\.LastValidators`, "the dropped state's LastValidators"},
+			{"LastValidators", `ss\.LoadValidators\(\(` + inv + `\.LastBlockHeight - 1\)\)#0`, "the stored set of height n-1"},
+			{"ConsensusParams", `ss\.LoadConsensusParams\(\(\(` + inv + `\.LastBlockHeight - 1\) \+ 1\)\)#0|ss\.LoadConsensusParams\(` + inv + `\.LastBlockHeight\)#0`, "the stored params of height n"},
+			{"LastResultsHash", drop + `\.Header\.LastResultsHash`, "the header of the dropped block n (results of n-1 are agreed on in block n)"},
+			{"AppHash", drop + `\.Header\.AppHash`, "the header of the dropped block n"},
+		}
+		got := map[string]string{}
+		for _, di := range w.deepInstrs(f, 1) {
+			st, ok := di.in.(*ssa.Store)
+			if !ok {
+				continue
+			}
+			fa, ok := st.Addr.(*ssa.FieldAddr)
+			if !ok {
+				continue
+			}
+			if n := derefNamed(fa.X.Type()); n != nil && n.Obj().Name() == "State" && relPath(n.Obj().Pkg()) == "state" {
+				got[fieldName(fa.X.Type(), fa.Field)] = w.exprWith(st.Val, di.sub)
+			}
+		}
+		for _, t := range table {
+			v, ok := got[t.field]
+			c.Check(ok && regexp.MustCompile("^(?:"+t.re+")$").MatchString(v), fk+" :: "+t.field+" comes from "+t.what, w.pos(f.Pos()), t.what, "State."+t.field+" of the rebuilt state is "+v)
+		}
+	})
+}
+
+// ------------------------------------------------------------------ C06.R12
+// The evidence a proposer puts into a block is what the pool hands out under the byte limit of the
+// consensus parameters; validateBlock rejects a block whose evidence exceeds that limit. The pool must
+// therefore add an item to its answer only if the encoded list *including that item* fits (or no limit
+// was given): comparing the size before the item lets one item too many through.
+func init() {
+	register("C06", "R12", "K10", "pending evidence is handed out only while the encoded list including the next item fits the byte limit", 2, func(c *Ctx) {
+		w := c.W
+		f := c.fn("evidence", "Pool.listEvidence")
+		if f == nil {
+			return
+		}
+		fk := funcKey(f)
+		n := 0
+		for _, call := range w.callsTo(f, "builtin#append") {
+			// the answer slice (of types.Evidence), not the proto list used for sizing
+			if !strings.HasSuffix(call.Common().Args[0].Type().String(), "types.Evidence") {
+				continue
+			}
+			if _, isAlloc := stripConv(call.Common().Args[0]).(*ssa.UnOp); isAlloc {
+				continue // evList.Evidence (a field load)
+			}
+			n++
+			c.guards(f, call, fk+" :: add an item to the answer", 0,
+				guardAny("no limit, or the list including this item fits",
+					guardCmp("no limit", "maxBytes", "==", "-1"),
+					guardCmp("fits", `&?\w+\.Size\(\)`, "<=", "maxBytes")))
+			// the size compared is taken after the item was added to the sizing list
+			for _, sz := range w.callsMatching(f, `^&?\w+\.Size\(\)$`) {
+				ok, _ := mustPrecede(f, call, func(in ssa.Instruction) bool { return in == ssa.Instruction(sz) })
+				c.Check(ok, fk+" :: the size is computed before the item is added to the answer", w.ipos(call), "Size() precedes", "an item can be added without the list size having been computed")
+				okA, _ := mustPrecede(f, sz, func(in ssa.Instruction) bool {
+					st, isSt := in.(*ssa.Store)
+					return isSt && strings.HasSuffix(w.expr(st.Addr), ".Evidence") && strings.HasPrefix(w.expr(st.Val), "append(")
+				})
+				c.Check(okA, fk+" :: the size includes the item under consideration", w.ipos(sz), "sizing list extended first", "the size is taken before the item is appended to the sizing list")
+			}
+		}
+		c.Check(n == 1, fk+" :: answer append found", w.pos(f.Pos()), "1", fmt.Sprintf("%d", n))
+	})
+}
